@@ -110,6 +110,46 @@ func extractTransactBody(repo string) ([]string, error) {
 	return acts, nil
 }
 
+// extractMonitorLocking reports, per monitor handler, whether it takes txnMutex and releases it by defer.
+func extractMonitorLocking(repo string) (map[string]bool, error) {
+	fset := token.NewFileSet()
+	f, err := parser.ParseFile(fset, filepath.Join(repo, "server", "server.go"), nil, 0)
+	if err != nil {
+		return nil, err
+	}
+	out := map[string]bool{}
+	for _, d := range f.Decls {
+		fd, ok := d.(*ast.FuncDecl)
+		if !ok || fd.Recv == nil || fd.Body == nil {
+			continue
+		}
+		if fd.Name.Name != "Monitor" && fd.Name.Name != "MonitorCond" && fd.Name.Name != "MonitorCondSince" {
+			continue
+		}
+		lock, unlock := false, false
+		for _, st := range fd.Body.List {
+			switch x := st.(type) {
+			case *ast.ExprStmt:
+				if c, ok := x.X.(*ast.CallExpr); ok {
+					if se, ok := c.Fun.(*ast.SelectorExpr); ok && se.Sel.Name == "Lock" {
+						if in, ok := se.X.(*ast.SelectorExpr); ok && in.Sel.Name == "txnMutex" {
+							lock = true
+						}
+					}
+				}
+			case *ast.DeferStmt:
+				if se, ok := x.Call.Fun.(*ast.SelectorExpr); ok && se.Sel.Name == "Unlock" {
+					if in, ok := se.X.(*ast.SelectorExpr); ok && in.Sel.Name == "txnMutex" {
+						unlock = lock
+					}
+				}
+			}
+		}
+		out[fd.Name.Name] = lock && unlock
+	}
+	return out, nil
+}
+
 func c17Schema() dyn.Schema {
 	return dyn.Schema{Name: "C17", Tables: []dyn.Table{
 		{Name: "Ctr", IsRoot: true, Indexes: [][]string{{"name"}}, Cols: []val.Col{{Name: "name", K: 'a', KT: 's'}, {Name: "n", K: 'a', KT: 'i'}}},
@@ -173,7 +213,32 @@ func driveC17(o opts) error {
 			fo["detail"] = "Transact performs " + strings.Join(acts, ", ") + "; " + strings.TrimSpace(string(outb))
 		}
 	}
-	w.Extra["fact_obligations"] = []interface{}{fo}
+	// second fact: the three monitor handlers hold the transaction lock (set-up is one step w.r.t. transactions)
+	fo2 := map[string]interface{}{"name": "monitor set-up holds the transaction lock (server/server.go: Monitor, MonitorCond, MonitorCondSince)", "ok": false}
+	if locked, err := extractMonitorLocking(repo); err != nil {
+		fo2["detail"] = "extraction failed: " + err.Error()
+	} else {
+		var bs []string
+		all := len(locked) == 3
+		for _, h := range []string{"Monitor", "MonitorCond", "MonitorCondSince"} {
+			bs = append(bs, emit.Bool(locked[h]))
+			all = all && locked[h]
+		}
+		src := "From Coq Require Import List Bool.\nImport ListNotations.\n(* generated from server/server.go on every run *)\n" +
+			"Definition monitor_setup_locked : list bool := [" + strings.Join(bs, "; ") + "].\n" +
+			"Lemma monitor_setup_is_locked : forallb (fun b => b) monitor_setup_locked = true.\nProof. reflexivity. Qed.\n"
+		_ = os.WriteFile(filepath.Join(o.out, "facts_C17_monitor.v"), []byte(src), 0o644)
+		cmd := exec.Command("coqc", "facts_C17_monitor.v")
+		cmd.Dir = o.out
+		outb, err := cmd.CombinedOutput()
+		fo2["extracted"] = locked
+		if err == nil && all {
+			fo2["ok"] = true
+		} else {
+			fo2["detail"] = fmt.Sprintf("handlers holding txnMutex: %v; %s", locked, strings.TrimSpace(string(outb)))
+		}
+	}
+	w.Extra["fact_obligations"] = []interface{}{fo, fo2}
 
 	sc := c17Schema()
 	for ci := 0; ci < ncases; ci++ {
